@@ -54,9 +54,24 @@ func VF_C15_Submit() {
 		}
 		pool = append(pool, op)
 	}
-	// the submitted result: every field independent of the pool
+	// the submitted result: each of ID / Type / Payload is either copied from a pool entry (any entry, independently per
+	// field) or a fresh value different from every pool entry; all other fields are arbitrary
+	subID, subType := vf.Str("sub.id"), vf.Str("sub.type")
+	subPayload := vf.Bytes("sub.payload", 1)
+	for _, op := range pool {
+		vf.Assume(vf.And(subID != op.ID, subType != string(op.Type), !vf.BytesEq(subPayload, op.Payload)))
+	}
+	if c := vf.Choose("sub.id.from", npool+1); c < npool {
+		subID = pool[c].ID
+	}
+	if c := vf.Choose("sub.type.from", npool+1); c < npool {
+		subType = string(pool[c].Type)
+	}
+	if c := vf.Choose("sub.payload.from", npool+1); c < npool {
+		subPayload = append([]byte{}, pool[c].Payload...)
+	}
 	sub := &dto.OperationDTO{
-		ID: vf.Str("sub.id"), Type: vf.Str("sub.type"), Payload: vf.Bytes("sub.payload", 1),
+		ID: subID, Type: subType, Payload: subPayload,
 		ResultMsgs: vfResultMsgs("sub.msg", vf.Choose("sub.nmsgs", 3)), CreatedAt: vf.Time("sub.created"),
 		DkgID: vf.Str("sub.round"), To: vf.Str("sub.to"), Event: fsm.Event(vf.Str("sub.event")), ExtraData: vf.Bytes("sub.extra", 1),
 	}
@@ -106,6 +121,11 @@ func VF_C15_Submit() {
 			pending, _ = e.ops.GetOperations()
 			_, again := pending[sub.ID]
 			vf.Assert("tombstone-filters", !again)
+			// the same board message handled again re-issues the identical operation: it must stay retired
+			n1 := len(board.sent)
+			err3 := e.node.ProcessOperation(sub)
+			vf.Assert("retire-once:after-reissue-fails", err3 != nil)
+			vf.Assert("retire-once:after-reissue-sends-nothing", len(board.sent) == n1)
 		}
 	} else {
 		vf.Assert("rejected-sends-nothing", len(sent) == 0)
